@@ -170,6 +170,14 @@ pub fn sync_reset() {
     cv.notify_all();
 }
 
+/// Forget everything recorded for a closed instance: a later instance may be allocated at the same address.
+pub fn sync_forget(instance: usize) {
+    let (m, _) = &*SYNC;
+    let mut st = m.lock().unwrap();
+    st.seen.retain(|k, _| k.0 != instance);
+    st.park_at.retain(|k, _| k.0 != instance);
+}
+
 pub fn sync_log_enable(on: bool) {
     SYNC.0.lock().unwrap().log_enabled = on;
 }
@@ -626,6 +634,7 @@ impl Db {
                     inner.verif_wake_wal_thread();
                     sync_wait_seen(instance, "walthread.exit", 1, Duration::from_millis(20));
                 }
+                sync_forget(instance);
             }
         }
         Ok(())
@@ -667,4 +676,24 @@ pub fn temp_dir(tag: &str) -> tempfile::TempDir {
         .prefix(&format!("vh-{}-", tag))
         .tempdir_in(base)
         .expect("tempdir")
+}
+
+/// Waits until no WAL flush of `instance` is in progress (flush.begin count == flush.end count).
+pub fn wait_flush_idle(instance: usize, timeout: Duration) -> bool {
+    let deadline = Instant::now() + timeout;
+    loop {
+        let b = sync_seen(instance, "flush.begin");
+        let e = sync_seen(instance, "flush.end");
+        if b == e {
+            // stable for a moment?
+            std::thread::sleep(Duration::from_millis(2));
+            if sync_seen(instance, "flush.begin") == b && sync_seen(instance, "flush.end") == b {
+                return true;
+            }
+        }
+        if Instant::now() > deadline {
+            return false;
+        }
+        std::thread::sleep(Duration::from_millis(5));
+    }
 }
